@@ -36,6 +36,7 @@ type solver struct {
 	timeout int // ms per query
 	nameSeq int64
 	scope   []string // assertions made inside the innermost open (push 1) of a check
+	hung    bool     // the watchdog killed the process because it ignored its own time limit
 }
 
 func newSolver(spec SolverSpec, timeoutMs int) (*solver, error) {
@@ -53,6 +54,43 @@ func newSolver(spec SolverSpec, timeoutMs int) (*solver, error) {
 		return nil, err
 	}
 	s := &solver{spec: spec, cmd: cmd, in: in, out: bufio.NewReaderSize(out, 1<<16), timeout: timeoutMs}
+	s.preamble()
+	return s, nil
+}
+
+// restart replaces a dead (or killed) solver process by a fresh one inside the same session object;
+// the caller re-sends whatever context it needs.
+func (s *solver) restart() error {
+	if s.cmd != nil && s.cmd.Process != nil {
+		s.cmd.Process.Kill()
+		s.in.Close()
+		go s.cmd.Wait()
+	}
+	cmd := exec.Command(s.spec.Argv[0], s.spec.Argv[1:]...)
+	in, err := cmd.StdinPipe()
+	if err != nil {
+		return err
+	}
+	out, err := cmd.StdoutPipe()
+	if err != nil {
+		return err
+	}
+	cmd.Stderr = cmd.Stdout
+	if err := cmd.Start(); err != nil {
+		return err
+	}
+	s.cmd, s.in, s.out = cmd, in, bufio.NewReaderSize(out, 1<<16)
+	s.hung = false
+	s.scope = s.scope[:0]
+	savedLog := s.log
+	s.log = nil
+	s.preamble()
+	s.log = savedLog
+	return nil
+}
+
+func (s *solver) preamble() {
+	spec, timeoutMs := s.spec, s.timeout
 	s.send("(set-option :print-success false)")
 	if strings.HasPrefix(spec.Name, "z3") {
 		s.send(fmt.Sprintf("(set-option :timeout %d)", timeoutMs))
@@ -60,7 +98,6 @@ func newSolver(spec SolverSpec, timeoutMs int) (*solver, error) {
 		s.send(fmt.Sprintf("(set-option :tlimit-per %d)", timeoutMs))
 	}
 	s.send("(set-logic ALL)")
-	return s, nil
 }
 
 func (s *solver) close() {
@@ -142,7 +179,12 @@ func (s *solver) readSexp() string {
 func (s *solver) checkSat() string {
 	t0 := time.Now()
 	s.send("(check-sat)")
+	// watchdog: a solver that ignores its own per-query limit (z3's sequence solver can) is killed; the read
+	// then fails, the caller restarts the session and treats the query as unknown
+	proc := s.cmd.Process
+	wd := time.AfterFunc(time.Duration(3*s.timeout+3000)*time.Millisecond, func() { s.hung = true; proc.Kill() })
 	r := s.readSexp()
+	wd.Stop()
 	atomic.AddInt64(&s.queries, 1)
 	atomic.AddInt64(&s.nanos, int64(time.Since(t0)))
 	switch r {
